@@ -93,6 +93,10 @@ func ValidQuery(schema *ast.Schema, query string) bool { panic("ghost") }
 //@ requires w != nil
 //@ requires !isBatch ==> len(rs) >= 1
 //@ ensures[status] Status == 200 && StatusWrites == old(StatusWrites) + 1
+// C08: a batch is answered with the array of its results, whatever its length (also one, also none); a single
+// request with the one result object (ghost record of the value handed to the JSON encoder)
+//@ ensures[batch-shape] isBatch ==> lastcalled(Encode) && is(lastarg(Encode, 1), Results) && sameslice(lastarg(Encode, 1).(Results), rs) @props C08
+//@ ensures[single-shape] !isBatch ==> lastcalled(Encode) && is(lastarg(Encode, 1), *Result) && lastarg(Encode, 1).(*Result) == rs[0] @props C08
 //@ end
 
 //@ func QueryerFactory
